@@ -100,7 +100,7 @@ def run(ctx):
                 pass
             for place in (0, 1):
                 ms = (1, 3) if (c["kind"] == "plain" and c["n"] % 5 == 0) else \
-                    ((1, 2) if (c["kind"].startswith("ldres") and c["n"] % 4 == 0) else (1,))
+                    ((1, 2) if (c["kind"] != "plain" and c["n"] % 4 == 0) else (1,))
                 for m in ms:
                     lines.append("%s %s %d %d %d %d %d %d %d %d" % (c["kind"], nm, c["n"], c["off"], c["b"], c["c"],
                                                                     c["lo"], c["hi"], place, m))
